@@ -167,7 +167,7 @@ def pstate_history(rng: random.Random, L: int):
     problem = None
     ctr = 0
     for _ in range(L):
-        cands = ["ck", "sp", "up", "rp", "di", "dz", "tp"]
+        cands = ["ck", "sp", "up", "rp", "di", "dz", "tp", "as", "az"]
         if saved:
             cands += ["ok", "rs", "ok", "rs"]
         if ref["user"]:
@@ -178,6 +178,22 @@ def pstate_history(rng: random.Random, L: int):
             cands.append("to")
         op = rng.choice(cands)
         ctr += 1
+        if op in ("as", "az"):
+            # an atomic scope entered and left (Rule.parse: `with state.atomic_checkpoint(): depth += 1 / zero()`):
+            # afterwards every component, and every enclosing checkpoint, is as before. Not a step of the model's
+            # trace (the visible state does not change); checked against the full-copy reference only.
+            with st.atomic_checkpoint():
+                if op == "as":
+                    st.atomic_depth += 1
+                else:
+                    st.atomic_depth.zero()
+            view = (st.pos, [int(x) for x in st.user_stack], list(st.rule_stack), int(st.atomic_depth),
+                    [int(x) for x in st.tag_stack])
+            want = (ref["pos"], ref["user"], ref["rules"], ref["depth"], ref["tags"])
+            if view != want and problem is None:
+                problem = (f"state {view} differs from the full-copy reference {want} after an atomic scope "
+                           f"following step {len(words)} ({' '.join(words[-12:])})")
+            continue
         if op == "ck":
             st.checkpoint(); saved.append({k: (list(v) if isinstance(v, list) else v) for k, v in ref.items()})
             words.append("ck")
